@@ -72,6 +72,7 @@ TRY_SITES = [
     ('unicode_from_bytes', 'spyne.protocol._inbase', 'InProtocolBase.unicode_from_bytes'),
     ('from_base64', 'spyne.model.binary', 'ByteArray.from_base64'),
     ('wsgi_handle_rpc', 'spyne.server.wsgi', 'WsgiApplication.handle_rpc'),
+    ('wsgi_reconstruct', 'spyne.server.wsgi', 'WsgiApplication.__reconstruct_wsgi_request'),
 ]
 
 # (coq name, module, qualified function name): every `raise <Fault class>(...)` statement of the
@@ -106,6 +107,8 @@ RAISE_SITES = [
 #   kind 'continue' : the body is `continue`
 #   kind 'return'   : the body returns
 GUARDS = [
+    ('g_wsgi_charset_not_text', 'spyne.server.wsgi', 'WsgiApplication.__reconstruct_wsgi_request',
+     "not getattr(codec_info, '_is_text_encoding', True)", 'raise'),
     ('g_soap_envelope_tag', 'spyne.protocol.soap.soap11', '_from_soap',
      "in_envelope_xml.tag != '{%s}Envelope' % ns_soap", 'raise'),
     ('g_soap_envelope_empty', 'spyne.protocol.soap.soap11', '_from_soap',
